@@ -318,7 +318,15 @@ Theorem C13_xform_icc_bytes_sufficient_with_overhead : gen_chunk_overhead = icc_
 Proof. exact xform_icc_bytes_sufficient_with_overhead. Qed.
 Print Assumptions C13_xform_icc_bytes_sufficient_with_overhead.
 
-(* payload-only accounting is refuted *)
+(* the tree as it is now (45743c1): tj3TransformBufSize = per-image part (headers + entropy-coded data, see
+   C13_bufsize_sufficient_when / _worstcase_refuted) + ICC term, and the ICC term covers every byte of every APP2
+   marker tj3Transform writes: the copied source chunks (18 + payload each, ANY chunking) or the instance profile *)
+Theorem C13_transform_bufsize_covers_icc : forall base x ps, valid_setup x -> x_src x = sum_list ps ->
+  base + icc_marker_bytes_of x ps <= transform_bufsize base x ps.
+Proof. exact transform_bufsize_covers_icc. Qed.
+Print Assumptions C13_transform_bufsize_covers_icc.
+
+(* payload-only accounting (before 45743c1) is refuted *)
 Theorem C13_xform_icc_chunk_overhead_refuted :
   valid_setup setup_chunks /\ icc_bytes_written setup_chunks 255 = 7140 /\ marker_budget setup_chunks = 4598 /\
   marker_budget setup_chunks < icc_bytes_written setup_chunks 255.
